@@ -563,7 +563,31 @@ def run_isolated(exe, mode, cases, wd, tag, nshards=None, timeout=120, env=None,
                 ids = [cid for cid, _ in q]
                 k = next((j for j, cid in enumerate(ids) if cid not in done), None)
                 if k is not None:
-                    culprits[ids[k]] = why
+                    # the shard's deadline and address-space cap cover all its cases: before a case is blamed it is run once
+                    # more in a process of its own under the same deadline and cap (a hang or crash of its own reproduces;
+                    # a slow machine or the memory left behind by earlier cases of the shard does not)
+                    solo = os.path.join(wd, "%s.%d.%d.solo.script" % (tag, i, rnd))
+                    with open(solo, "w") as f:
+                        f.write("case %s\n" % ids[k])
+                        for l in q[k][1]:
+                            f.write(l + "\n")
+                        f.write("end\n")
+                    why2 = None
+                    try:
+                        p2 = subprocess.run([exe, mode, solo], stdout=subprocess.PIPE, stderr=subprocess.PIPE, env=env or os.environ,
+                                            preexec_fn=limit, timeout=timeout)
+                        if p2.returncode != 0:
+                            why2 = "process exited with status %d: %s" % (p2.returncode, (p2.stderr or b"").decode(errors="replace")[-300:].replace("\n", " | "))
+                        else:
+                            done2, _ = parse_obs_complete(p2.stdout.decode(errors="replace"))
+                            if ids[k] in done2:
+                                results.update(done2)
+                            else:
+                                why2 = why
+                    except subprocess.TimeoutExpired:
+                        why2 = "deadline of %ds exceeded, also when run alone (possible non-termination)" % timeout
+                    if why2 is not None:
+                        culprits[ids[k]] = why2
                     newq[i] = q[k + 1:]
         queues = newq
         rnd += 1
